@@ -174,9 +174,9 @@ func evalOpHere(line string) string {
 	}()
 	// an op that never returns is reported as "hang" (its goroutine is abandoned); once that has happened the patience for
 	// the remaining ops is short, so that a deadlocking implementation costs minutes, not the whole time budget
-	limit := 400 * time.Second
+	limit := 400 * time.Second * loadScale()
 	if opHangs.Load() > 0 {
-		limit = 120 * time.Second
+		limit = 120 * time.Second * loadScale()
 	}
 	select {
 	case res := <-done:
